@@ -214,6 +214,13 @@ fn produce_image_from_entry(entry: &Entry) -> Result<image::RgbaImage, String> {
         format!("cannot transcode from unknown color format {}", format)
     })?;
 
+    // (the data can have any length in a corrupt file; transcoding requires whole pixels)
+    if texture_data.data.len() % cformat.bytes_per_pixel() as usize != 0 {
+        return Err(format!(
+            "image data length ({}) is not a multiple of the pixel size ({})",
+            texture_data.data.len(), cformat.bytes_per_pixel(),
+        ));
+    }
     let content_argb = cformat.transcode_to_argb_8888(&texture_data.data);
     let content = BgraImage::from_raw(content_width, content_height, &content_argb[..]).ok_or_else(|| {
         format!("not enough image data for {}x{} pixels", content_width, content_height)
